@@ -156,6 +156,7 @@ func (e *engine) doStep(st Step) {
 		Commit int    `json:"commit"`
 		Early  bool   `json:"early"`
 		Kind   string `json:"kind"`
+		X      bool   `json:"x"`
 	}
 	_ = json.Unmarshal(st.G, &g)
 	pn := core.Try(func() {
@@ -181,7 +182,11 @@ func (e *engine) doStep(st Step) {
 		case "JSync":
 			err = e.pg.JSync()
 		case "JPage":
-			err = e.pg.JPage(g.P)
+			if g.X {
+				err = e.pg.JPageBeyond(g.P)
+			} else {
+				err = e.pg.JPage(g.P)
+			}
 		case "JRbTrunc":
 			err = e.pg.JRbTrunc(g.N)
 		case "JRbPage":
@@ -193,7 +198,11 @@ func (e *engine) doStep(st Step) {
 		case "WHdr":
 			err = e.pg.WHdr(g.Salt)
 		case "WFrame":
-			err = e.pg.WFrame(g.P, g.Early, g.Commit != 0)
+			if g.X {
+				err = e.pg.WFrameBeyond(g.P)
+			} else {
+				err = e.pg.WFrame(g.P, g.Early, g.Commit != 0)
+			}
 		case "WEnd":
 			err = e.pg.WEnd()
 		case "Ckpt":
